@@ -13,6 +13,7 @@ CHECKS = {
               'references) under every prompt mode, and real 2021-2023 returns re-solved as full file / deleted keys / partial or refusing prompt / '
               'gate inputs flipped, are checked for: verdict True iff no demanded line ends not-implemented, hits a missing input or is blocked; '
               'diagnostic getters equal the sets the oracle derives; aborts only where the model aborts; the CLI exit text matches. Random search: '
+              'Requests of several forms of which exactly one cannot be completed are run through the command line in every position. '
               'strong on the solver core, as wide on shipped forms as the scenario generator reaches (class distribution in evidence).'),
         note='Trusted: hx/progs.py model, hx/closure.py, the scenario generator. Aborts with NotImplementedError/InvalidInput/bad-reference errors are allowed outcomes.',
         design='3/C01'),
@@ -24,6 +25,9 @@ CHECKS = {
               'carry-out). Isolated: the real definition of each closed line is evaluated on generated operand tuples incl. boundary and '
               'negative-floor cases; carried lines are probed with per-line sentinel values so that carrying the wrong source line shows; '
               'end-to-end: every parsed line and every carry of every solved generated return is recomputed from the same solution. '
+              'Sentences that total payer-statement boxes (template wording or cited transcription) are evaluated on the input file, and half of the '
+              'returns are completed so that every such box is filled on every copy (answer-on-demand never fills a box nobody asks for); '
+              '"Figure the tax on line N" uses the harness\' own rate-schedule reference. '
               'Unparsed sentences and non-closed lines are listed in evidence, never guessed.'),
         note='Trusted: hx/instr.py grammar, hx/pdf.py text extraction, data/instructions_transcribed.json (sources cited). Lines whose text is "see instructions" or an input echo are out of reach.',
         design='3/C02'),
@@ -32,7 +36,8 @@ CHECKS = {
         technique='re-evaluation oracle: every stored line of every generated solve (programs and real returns, drawn schedules) is recomputed from its own definition on the final stores; solution text round-trips through Field.from_string',
         text=('Every solve explored (generated programs with diamonds/late operands and real returns, complete and partial, under random, reversed '
               'and natural attempt orders) is re-evaluated line by line: stored value == definition(final inputs, final values), same type; equals '
-              'the reference model for programs; solution text re-reads to the stored value.'),
+              'the reference model for programs; solution text re-reads to the stored value; table-edge returns, and every stored line evaluated again '
+              'in descending and shuffled order after an unrelated return was solved in the same process (no hidden state).'),
         note='Trusted: definitions are deterministic; hx/closure.py; schedule substitution via habutax.solver.sort_keys/DependencyTracker.',
         design='3/C03'),
     'C04': dict(
@@ -40,6 +45,7 @@ CHECKS = {
         technique='set-equality oracle between Solver state (solution keys, Solver.forms) and the independently computed demand closure, over generated programs and real returns with several requested form sets',
         text=('For solved and unsolved real returns (requested: 1040, 1040+NC, NC alone, single schedules) and generated programs with optional '
               'lines/forms/numbered copies, the keys of the solution and the participating forms must equal the demand closure (both directions), '
+              'inputs typed at the real command-line prompt (always one that dozens of lines wait for) must give the same solution file; '
               'input-only loaded forms must not appear, every solution section is a participating form.'),
         note='Trusted: hx/closure.py, hx/progs.py model.',
         design='3/C04'),
@@ -50,7 +56,7 @@ CHECKS = {
               'random and reversed attempt orders (all four ordering points of the solver are substituted), permuted requested forms, re-serialised '
               'input files, inputs moved from the file to a total prompt, and the `habutax solve` command on the re-serialised file. '
               'Non-triviality is measured by the attempt trace actually differing from the base.'),
-        note='Trusted: schedule substitution covers every use of sort_keys and met_dependents(); refusing prompts excluded by design.',
+        note='Trusted: schedule substitution covers every use of sort_keys and met_dependents(); runs with a refusing prompt are compared only when both ended with the same supplied inputs; the printed CLI failure report is parsed back and compared.',
         design='3/C05'),
     'C06': dict(
         category='exploration',
@@ -59,7 +65,9 @@ CHECKS = {
               'release corresponds to an unreleased registration on a met dependency, nothing is left after a drain, the query methods agree. '
               'Generated form programs (cycles, self-references, unknown names, refusing prompts) are solved under random, reversed and natural '
               'schedules with a deterministic step budget: termination, each input asked once, nothing asked after a refusal, per-line '
-              'evaluations <= 2 + distinct names waited for. Random search over small programs/histories; no liveness proof.'),
+              'evaluations <= 2 + distinct waits + distinct declarations; fan-in of 1-30 lines through the real command-line prompt; prompt callbacks '
+              'returning rejected text (asked once, prompt-count guard); real returns under drawn schedules with no wait left on a line or input that '
+              'got its value. Random search over small programs/histories; no liveness proof.'),
         note='Trusted: the tracker model and caller precondition in checks/c06.py; the program generator hx/progs.py; step budget of 20000 evaluations.',
         design='3/C06'),
     'C07': dict(
@@ -79,7 +87,7 @@ CHECKS = {
               'income) and saver-credit limits, recovery rebate amounts, foreign tax limit, NC rate, NC standard deduction and every band of the NC '
               'child deduction. Echo probes read the line that prints the amount; straddle probes evaluate the deciding line at limit-0.01 / limit / '
               'limit+0.01. The finite table is enumerated completely; amounts printed in the templates (standard deduction, 8959, 8889, Schedule A, '
-              '8812 line 9, NC rate) are cross-checked at run time.'),
+              '8812 line 9, NC rate) are cross-checked at run time; all triples are evaluated once more in one process, forwards and backwards.'),
         note='Trusted: data/statute.json (sources per entry; typed from the Revenue Procedures/instructions) and the probe definitions in tools/build_statute.py.',
         design='3/C08'),
     'C09': dict(
@@ -89,7 +97,9 @@ CHECKS = {
               'others, or into random solving returns); whenever the recording store shows the gate consulted with that value by a line that can act '
               'on it, the solve must not succeed. Each owning line is also evaluated in isolation with the gate declared: it must consult the gate '
               '(deterministic witness from the pinned tree) and never produce a value. Amount limits (foreign tax, Schedule B rows, HSA, educator '
-              'expenses, 1099-OID) are straddled with a control at the limit that solves. Evidence lists gates never consulted.'),
+              'expenses, 1099-OID) are straddled with a control at the limit that solves (recipes enumerated per year); status-indexed limits whose far '
+              'side is not implemented are probed for every year x status. A consultation is a read by one of the gate\'s owning lines. '
+              'Evidence lists gates never consulted.'),
         note='Trusted: data/gates.json (reviewed list), data/gate_witnesses.json (assignments recorded at the pinned tree), scenario generator.',
         design='3/C09'),
     'C10': dict(
@@ -135,7 +145,7 @@ CHECKS = {
         text=('Solved 2021-2023 returns (owing, refund, refund applied, deductions above income, credits above tax, NC taxable income below zero, '
               '8606) are checked for 34-37 = 33-24, not both positive, 35a+36 = 34, the NC counterparts, and >= 0 for every line whose official '
               'text carries a zero floor or that data/nonneg_lines.json names (with category); ratios stay in [0,1]. Evidence counts how often '
-              'each floor was active.'),
+              'each floor was active; each return is also re-solved with its withholding moved so that the balance is 0, +-1 cent ... +-250 dollars.'),
         note='Trusted: the scenario generator draws non-negative amounts; data/nonneg_lines.json; hx/instr.py floor detection.',
         design='3/C15'),
     'C16': dict(
@@ -144,7 +154,9 @@ CHECKS = {
         text=('Each solved base return is transformed and re-solved: renumbering W-2/1099/1098 copies must leave every line equal (1 cent; NC 1 '
               'dollar) and Schedule B rows equal as a multiset; W-2 wages + delta must not lower total tax (federal, NC); each deductible input '
               '+ delta must not raise it; each withholding/payment input + delta must move refund-minus-owed by exactly delta. Pairs whose '
-              'second return does not solve are dropped and counted.'),
+              'second return does not solve are dropped and counted (inputs that only the second return demands are answered by the persona\'s policy). '
+              'Every withholding and deductible key of a return is changed once; threshold sweep: AGI exactly on every literal of the participating '
+              'forms vs a little above; deduction cliffs on the literals of the input\'s own form.'),
         note='Trusted: lists of deductible and withholding inputs in checks/c16.py; tolerance 0.011 (float summation order).',
         design='3/C16'),
     'C17': dict(
